@@ -10,7 +10,7 @@ for f in sorted(glob.glob('/verif/seeded/*/meta.json'), key=lambda x: (x.split('
     file = m['files'][0].replace('pyrates/', '')
     det = sorted({k.split(':')[0] for k, v in m.get('checks', {}).items() if v['exit'] == 1})
     idx_ = int(m['name'].split('-')[1])
-    rnd = 8 if idx_ >= 13 else 7 if idx_ >= 11 else 6 if idx_ >= 9 else 5 if idx_ >= 7 else 4 if idx_ >= 5 else 1 if idx_ <= 2 else (2 if m['name'].split('-')[0] in ('C01','C02','C03','C04','C06','C07','C09','C13','C14','C16') else 3)
+    rnd = 9 if idx_ >= 15 else 8 if idx_ >= 13 else 7 if idx_ >= 11 else 6 if idx_ >= 9 else 5 if idx_ >= 7 else 4 if idx_ >= 5 else 1 if idx_ <= 2 else (2 if m['name'].split('-')[0] in ('C01','C02','C03','C04','C06','C07','C09','C13','C14','C16') else 3)
     note = ''
     if m.get('neutralised'):
         note = ' (no longer a violation on the repaired tree)'
